@@ -10,7 +10,11 @@
 (* baseline.  With Share = TRUE (New hands out the CIDInit template itself *)
 (* instead of a clone) TLC finds the violation: the model is not vacuous.  *)
 (*                                                                         *)
-(* Family "hist" enumerates hostile histories for the harness.             *)
+(* Family "hist" enumerates hostile histories for the harness.  The action *)
+(* "mutate-all-reachable" is the closure of Hack over every slot: the      *)
+(* harness overwrites every container reachable from the instance and      *)
+(* every value an operator hands out (matrix, ...), and the probe renders  *)
+(* everything a fresh instance can reach.                                  *)
 (***************************************************************************)
 EXTENDS Integers, Sequences, TLC, Json, CSV
 
@@ -47,7 +51,7 @@ Next == (Family = "model" /\ \E i \in Inst : New(i) \/ \E sl \in Slots : Hack(i,
         (Family = "hist" /\ Len(hist) < MaxHist /\
              \E a \in {"redefine-operator", "overwrite-operator-with-garbage", "put-encoding-slot", "alter-cidinit",
                        "alter-errordict", "fail-halfway", "define-font-and-resource", "copy-userdict-into-systemdict",
-                       "rebind-true-false", "grow-stacks-and-fail"} :
+                       "rebind-true-false", "grow-stacks-and-fail", "mutate-all-reachable"} :
                  hist' = Append(hist, a) /\ UNCHANGED <<tmpl, inst>>)
 
 TemplatesUntouched == tmpl = "orig"
